@@ -18,7 +18,7 @@ from rlib import T, table, py, fn_site, Bottom, Unanalysable
 from prog import walk
 
 
-def run(ctx):
+def run(ctx, only_solver=False):
     p = ctx.prog
     I = ctx.interp(fuel=200000000)
     for f in list(I.forbidden):
@@ -30,8 +30,9 @@ def run(ctx):
     ctx.rule('TABLES-CORR', 'correction strings decode to {0,1,2} and cover the largest index their readers can form')
     ctx.rule('FLOW-SOLVER', 'solver structure: full series in the last Newton step; midnight guard falls back to the precise solver; two-sided precise search')
     F = 'src/tyme/util.rs'
+    if only_solver:
+        return _solver_rules(ctx, p, I, F)
 
-    # ---- TT-UT
     def dt():
         at = py(I.static('DT_AT', F))
         if (len(at) - 2) % 5 != 0:
@@ -125,6 +126,16 @@ def run(ctx):
         return None
     ctx.guard('TABLES-CORR', 'TABLES:QB/SB', corr, 2)
 
+    _solver_rules(ctx, p, I, F)
+
+    ctx.not_decided.append('every accuracy clause of the statement: longitudes at the reported instants, agreement with an independent theory, sub-arcsecond residuals, day agreement from 1961 on (all series values)')
+    ctx.assumptions.append('series functions are evaluated only for their index behaviour / at the knots of their own literal tables; no series value enters a verdict')
+    return ('structural necessary conditions only: TT-UT spline continuity at its own knots, table shapes and loop index bounds, fit-table monotonicity, correction-string alphabet and coverage, '
+            'full series in the last Newton step, midnight fall-back of the day-level solvers')
+
+
+def _solver_rules(ctx, p, I, F):
+    ctx.rule('FLOW-SOLVER', 'solver structure: full series in the last Newton step; midnight guard falls back to the precise solver; two-sided precise search')
     # ---- solver structure (syntax)
     def calls_in(fnq, callee):
         fn = p.fn(fnq)
@@ -193,7 +204,3 @@ def run(ctx):
     ctx.guard('FLOW-SOLVER', 'FLOW:qi_high:midnight-guard', guard('qi_high', 'sa_lon_t2', 'sa_lon_t', 1200), 18, {'fn': fn_site(p, 'ShouXingUtil::qi_high')})
     ctx.guard('FLOW-SOLVER', 'FLOW:shuo_high:midnight-guard', guard('shuo_high', 'm_sa_lon_t2', 'm_sa_lon_t', 1800), 18, {'fn': fn_site(p, 'ShouXingUtil::shuo_high')})
 
-    ctx.not_decided.append('every accuracy clause of the statement: longitudes at the reported instants, agreement with an independent theory, sub-arcsecond residuals, day agreement from 1961 on (all series values)')
-    ctx.assumptions.append('series functions are evaluated only for their index behaviour / at the knots of their own literal tables; no series value enters a verdict')
-    return ('structural necessary conditions only: TT-UT spline continuity at its own knots, table shapes and loop index bounds, fit-table monotonicity, correction-string alphabet and coverage, '
-            'full series in the last Newton step, midnight fall-back of the day-level solvers')
